@@ -1,12 +1,18 @@
 import TR.Lemmas.Fallback
 import TR.Lemmas.FallbackDrop
 import TR.Lemmas.FallbackStack
+import TR.Lemmas.FallbackRun
+import TR.Lemmas.FallbackRequest
+import TR.Lemmas.FallbackCount
 /-!
 # C17 — fallback never replaces a success and handles exactly the errors it should
 
 Quantification. The theorems about the decision function (`afterInner`, `afterBackup`,
-`resolve`) hold for every configuration (each of the six strategies, no predicate or any
-predicate mask, any static value), every request `(c, tag)`, every inner and backup result and
+`resolve`) hold for every configuration `cfg : Cfg` — each of the six strategies, NO predicate or ANY
+predicate function `IErr → Bool`, ANY static value, ANY value function (any sequence of responses by
+invocation number), ANY `from_error`, `from_request_error` and transformation function (the user functions
+are parameters of the model; the harness's fixed test functions are the instance `test`, `test_instance`) —
+every request `(c, tag)`, every inner and backup result and
 every state of the value-function counter. The theorems about runs hold in addition for every
 list of operations of the poll-level machine: any number of requests, every order of arrivals,
 polls, cancellations and clock advances, every scripted latency/outcome (ok, error of any kind,
@@ -16,6 +22,11 @@ the call was made"). The theorems about the caller's side (`FallbackError`'s acc
 hold for every result and every sequence of post-processing steps; those about a stack of two
 fallback layers for every pair of configurations (upper strategy ≠ backup service where said so),
 and, at run level, for every operation list of the lower instance.
+
+Run-level theorems speak about the event log (the thing the correspondence check compares), about
+positions in it where order matters (`completion_block_in_one_piece`, `value_fn_counter_exact`,
+`callback_owner_in_log`, `result_exact_counted`), and about the operation list for what is an input and
+emits no event: the request a caller hands in (`requestOf ops c`, `request_forwarded_unchanged`).
 -/
 namespace TR.Props.C17
 open TR TR.Fallback
@@ -30,7 +41,7 @@ theorem success_passes_through (cfg : Cfg) (rq : Request) (n : Nat) (r : Resp) (
   simp [afterInner, resolve]
 
 /-- Without a predicate every error is handled. -/
-theorem always_handled_without_predicate (cfg : Cfg) (e : IErr) (h : cfg.handle = none) :
+theorem always_handled_without_predicate (cfg : Cfg) (e : IErr) (h : cfg.pred = none) :
     accepts cfg e = true := by
   simp [accepts, h]
 
@@ -48,7 +59,7 @@ theorem unhandled_unchanged (cfg : Cfg) (rq : Request) (n : Nat) (e : IErr) (rb 
     resolve cfg rq n (.err e) rb = ([.predicate e false], false, .inner e) := by
   have hp : predCalls cfg e = [.predicate e false] := by
     unfold predCalls accepts at *
-    cases hh : cfg.handle with
+    cases hh : cfg.pred with
     | none => simp [hh] at h
     | some m => simp [hh] at h ⊢; exact h
   simp [afterInner, resolve, h, hp]
@@ -57,7 +68,7 @@ theorem unhandled_unchanged (cfg : Cfg) (rq : Request) (n : Nat) (e : IErr) (rb 
 theorem strategy_differs_from_unchanged (cfg : Cfg) (rq : Request) (n : Nat) (e : IErr) :
     applyStrategy cfg rq n e ≠ .finish (predCalls cfg e) (.inner e) := by
   unfold applyStrategy
-  cases cfg.strat <;> simp [strategyException]
+  cases cfg.strat <;> simp
 
 /-- … hence: the strategy is triggered **exactly when** the predicate accepts the error. -/
 theorem handled_iff_predicate (cfg : Cfg) (rq : Request) (n : Nat) (e : IErr) :
@@ -74,37 +85,37 @@ theorem handled_iff_predicate (cfg : Cfg) (rq : Request) (n : Nat) (e : IErr) :
 /-- The predicate, when configured, is consulted exactly once per inner error, first, with that
 error; it is not consulted when none is configured. -/
 theorem predicate_consulted_once (cfg : Cfg) (e : IErr) :
-    predCalls cfg e = match cfg.handle with
+    predCalls cfg e = match cfg.pred with
       | none => []
       | some _ => [.predicate e (accepts cfg e)] := by
-  unfold predCalls; cases cfg.handle <;> rfl
+  unfold predCalls; cases cfg.pred <;> rfl
 
 /-! ### one theorem per strategy: the exact result for that request and that error -/
 
 /-- value: a clone of the configured value, whatever the request and the error. -/
 theorem value_exact (cfg : Cfg) (rq : Request) (n : Nat) (e : IErr) (rb : IRes)
     (hs : cfg.strat = .value) (h : accepts cfg e = true) :
-    resolve cfg rq n (.err e) rb = (predCalls cfg e, false, .ok ⟨cfg.val, 0, 0⟩) := by
-  simp [resolve, afterInner, h, applyStrategy, hs, strategyValue]
+    resolve cfg rq n (.err e) rb = (predCalls cfg e, false, .ok cfg.value) := by
+  simp [resolve, afterInner, h, applyStrategy, hs]
 
 /-- value function: invoked exactly once, its (fresh) value is the response. -/
 theorem value_fn_exact (cfg : Cfg) (rq : Request) (n : Nat) (e : IErr) (rb : IRes)
     (hs : cfg.strat = .valueFn) (h : accepts cfg e = true) :
-    resolve cfg rq n (.err e) rb = (predCalls cfg e ++ [.valueFn n], false, .ok (strategyValueFn cfg n)) := by
+    resolve cfg rq n (.err e) rb = (predCalls cfg e ++ [.valueFn n], false, .ok (cfg.valueFn n)) := by
   simp [resolve, afterInner, h, applyStrategy, hs]
 
 /-- from error: the function is applied to exactly this error. -/
 theorem from_error_exact (cfg : Cfg) (rq : Request) (n : Nat) (e : IErr) (rb : IRes)
     (hs : cfg.strat = .fromError) (h : accepts cfg e = true) :
-    resolve cfg rq n (.err e) rb = (predCalls cfg e ++ [.fromError e], false, .ok ⟨e.v, 0, e.kind⟩) := by
-  simp [resolve, afterInner, h, applyStrategy, hs, strategyFromError]
+    resolve cfg rq n (.err e) rb = (predCalls cfg e ++ [.fromError e], false, .ok (cfg.fromError e)) := by
+  simp [resolve, afterInner, h, applyStrategy, hs]
 
 /-- from request and error: the function is applied to exactly this request and this error. -/
 theorem from_request_error_exact (cfg : Cfg) (rq : Request) (n : Nat) (e : IErr) (rb : IRes)
     (hs : cfg.strat = .fromReqErr) (h : accepts cfg e = true) :
     resolve cfg rq n (.err e) rb
-      = (predCalls cfg e ++ [.fromReqErr rq e], false, .ok ⟨e.v, rq.c, rq.tag * 100 + e.kind⟩) := by
-  simp [resolve, afterInner, h, applyStrategy, hs, strategyFromReqErr]
+      = (predCalls cfg e ++ [.fromReqErr rq e], false, .ok (cfg.fromReqErr rq e)) := by
+  simp [resolve, afterInner, h, applyStrategy, hs]
 
 /-- backup service, succeeding: the backup is called and its response is returned as it is. -/
 theorem service_backup_ok (cfg : Cfg) (rq : Request) (n : Nat) (e : IErr) (r : Resp)
@@ -123,8 +134,8 @@ theorem service_backup_failing (cfg : Cfg) (rq : Request) (n : Nat) (e eb : IErr
 theorem exception_exact (cfg : Cfg) (rq : Request) (n : Nat) (e : IErr) (rb : IRes)
     (hs : cfg.strat = .exception) (h : accepts cfg e = true) :
     resolve cfg rq n (.err e) rb
-      = (predCalls cfg e ++ [.exception e], false, .inner ⟨e.kind + 10, e.v⟩) := by
-  simp [resolve, afterInner, h, applyStrategy, hs, strategyException]
+      = (predCalls cfg e ++ [.exception e], false, .inner (cfg.exception e)) := by
+  simp [resolve, afterInner, h, applyStrategy, hs]
 
 /-- The backup service is called only for the backup strategy, only for an accepted error. -/
 theorem backup_only_for_accepted_error (cfg : Cfg) (rq : Request) (n : Nat) (ri : IRes) (cbs : List Callback)
@@ -140,6 +151,12 @@ exactly a stage of the canonical trace: nothing; the inner call; inner call + it
 block + backup call; or a finished / cancelled trace (`Final`). Nothing else ever appears. -/
 theorem trace_shape (cfg : Cfg) (ops : List Op) (c : Nat) : Shape cfg c (evsOf c (run cfg ops).log) :=
   shape_reachable cfg ops c
+
+/-- The same, spelled out event by event (`Trace`): which inner result, which decision
+(`afterInner … = .finish cbs o` / `.backup cbs`), which callbacks, which tail after a backup decision
+(backup not ready / calling / dropped / panicked / finished with `afterBackup rb`). -/
+theorem trace_explicit (cfg : Cfg) (ops : List Op) (c : Nat) : Trace cfg c (evsOf c (run cfg ops).log) :=
+  trace_reachable cfg ops c
 
 /-- In every run: a result delivered for request `c` is exactly what the decision function
 specifies for **that** request (the one given to the inner call) and **that** inner result —
@@ -604,7 +621,7 @@ theorem upper_handles_iff (u : Cfg) (hs : u.strat ≠ .service) (rq : Request) (
 layer's error, variant included, and the result is `Inner` of what it returns. -/
 theorem upper_exception_exact (u : Cfg) (hs : u.strat = .exception) (rq : Request) (n : Nat) (o : Outcome) (e' : IErr)
     (ho : o.asInner = .err e') (hacc : accepts u e' = true) :
-    upperFinish u rq n o = (predCalls u e' ++ [.exception e'], .inner ⟨e'.kind + 10, e'.v⟩) := by
+    upperFinish u rq n o = (predCalls u e' ++ [.exception e'], .inner (u.exception e')) := by
   have hsp := upperFinish_spec (u := u) (by rw [hs]; decide) rq n o
   rw [ho] at hsp
   have := (exception_exact u rq n e' (.ok ⟨0, 0, 0⟩) hs hacc)
@@ -615,17 +632,19 @@ theorem upper_exception_exact (u : Cfg) (hs : u.strat = .exception) (rq : Reques
 
 /-- The composed statement for the stack "error shaping above, backup routing below": lower layer =
 backup strategy, the inner error accepted, the backup fails with `eb`; upper layer = error
-transformation, its predicate (if any) accepting `FallbackFailed(eb)`. Then the backup was called, the
-upper transform was handed `FallbackFailed(eb)` — not `Inner(eb)`, nor any other `Inner(..)` — and the
-stack returns `Inner(transform(FallbackFailed(eb)))`. -/
+transformation (any function), its predicate (if any) accepting `FallbackFailed(eb)`. Then the backup was
+called, the upper transform was handed `FallbackFailed(eb)` — not `Inner(eb)`, nor any other `Inner(..)` —
+and the stack returns `Inner(transform(FallbackFailed(eb)))`; with the harness's transformation (kind + 10
+on the encoded error) that differs from the transform of every `Inner(..)`. -/
 theorem exception_over_failed_backup (l u : Cfg) (rq : Request) (nl nu : Nat) (e eb : IErr)
     (hl : l.strat = .service) (hal : accepts l e = true)
     (hu : u.strat = .exception) (hau : accepts u ⟨2 * eb.kind + 1, eb.v⟩ = true) :
     stackResolve l u rq nl nu (.err e) (.err eb)
       = (predCalls l e, true, predCalls u ⟨2 * eb.kind + 1, eb.v⟩ ++ [.exception ⟨2 * eb.kind + 1, eb.v⟩],
-         .inner ⟨2 * eb.kind + 1 + 10, eb.v⟩) ∧
+         .inner (u.exception ⟨2 * eb.kind + 1, eb.v⟩)) ∧
     (∀ e2 : IErr, Callback.exception ⟨2 * eb.kind + 1, eb.v⟩ ≠ .exception ⟨2 * e2.kind, e2.v⟩) ∧
-    (∀ e2 : IErr, Outcome.inner ⟨2 * eb.kind + 1 + 10, eb.v⟩ ≠ .inner ⟨2 * e2.kind + 10, e2.v⟩) := by
+    (u.exception = strategyException →
+      ∀ e2 : IErr, Outcome.inner (u.exception ⟨2 * eb.kind + 1, eb.v⟩) ≠ .inner (u.exception ⟨2 * e2.kind, e2.v⟩)) := by
   refine ⟨?_, ?_, ?_⟩
   · have hr := service_backup_failing l rq nl e eb hl hal
     have hx := upper_exception_exact u hu rq nu (.failed eb) ⟨2 * eb.kind + 1, eb.v⟩ rfl hau
@@ -634,9 +653,9 @@ theorem exception_over_failed_backup (l u : Cfg) (rq : Request) (nl nu : Nat) (e
     injection h with h
     injection h with h1 _
     omega
-  · intro e2 h
-    injection h with h
-    injection h with h1 _
+  · intro hx e2 h
+    rw [hx] at h
+    simp only [strategyException, Outcome.inner.injEq, IErr.mk.injEq] at h
     omega
 
 /-- In every run of the lower instance, under every upper configuration: a result the caller of the
@@ -692,29 +711,443 @@ theorem stack_success_untouched (l u : Cfg) (ops : List Op) (c k : Nat)
     obtain ⟨o, ho, hne, _⟩ := upper_callbacks_only_for_lower_errors l u ops c cb hcb
     exact hne _ (only o ho)
 
+/-! ## arbitrary user functions; the harness's test functions are one instance -/
+
+/-- Every theorem of this file is about an arbitrary configuration `cfg : Cfg`: any handle predicate
+`IErr → Bool` (or none), any static value, any value function (any sequence of responses), any
+`from_error`, `from_request_error` and transformation function. The configuration the correspondence runs
+are made with — `test strat handle val`, the functions the harness hands to the real builder — is the
+instance: predicate = bit `kind` of the mask, value `(val,0,0)`, value function `(val+n,0,1)`, … -/
+theorem test_instance (st : Strategy) (h : Option Nat) (val : Nat) (rq : Request) (n : Nat) (e : IErr) :
+    (test st h val).strat = st ∧ (test st h val).value = ⟨val, 0, 0⟩ ∧ (test st h val).valueFn n = ⟨val + n, 0, 1⟩ ∧
+    (test st h val).fromError e = ⟨e.v, 0, e.kind⟩ ∧ (test st h val).fromReqErr rq e = ⟨e.v, rq.c, rq.tag * 100 + e.kind⟩ ∧
+    (test st h val).exception e = ⟨e.kind + 10, e.v⟩ ∧
+    accepts (test st h val) e = (match h with | none => true | some m => m.testBit e.kind) ∧
+    ((test st h val).pred = none ↔ h = none) := by
+  cases h <;> simp [test, accepts, maskPred, strategyValue, strategyValueFn, strategyFromError, strategyFromReqErr,
+    strategyException]
+
+/-- The user functions the layer invokes on an inner error: the predicate, once, if one is configured;
+then — **only if** the error is accepted — the one function of the strategy (none for a static value and
+for the backup service), with exactly this request, this error and the current invocation number. -/
+theorem user_functions_invoked (cfg : Cfg) (rq : Request) (n : Nat) (e : IErr) (rb : IRes) :
+    (resolve cfg rq n (.err e) rb).1
+      = predCalls cfg e ++ (if accepts cfg e then (strategyCall cfg rq n e).toList else []) := by
+  have := afterInner_err_cbs cfg rq n e
+  unfold resolve
+  cases h : afterInner cfg rq n (.err e) <;> rw [h] at this <;> simpa [Act.cbs] using this
+
+/-- With arbitrary functions a handled error can come back looking unhandled in exactly one way: the
+strategy is the error transformation and the transformation maps this error to itself (the decision and the
+callbacks still differ: `strategy_differs_from_unchanged`). Every other strategy yields a response or
+`FallbackFailed`. -/
+theorem handled_outcome_unchanged_iff (cfg : Cfg) (rq : Request) (n : Nat) (e : IErr) (rb : IRes)
+    (h : accepts cfg e = true) :
+    (resolve cfg rq n (.err e) rb).2.2 = .inner e ↔ cfg.strat = .exception ∧ cfg.exception e = e := by
+  simp only [resolve, afterInner, h, if_true, applyStrategy]
+  cases cfg.strat <;> simp
+  cases rb <;> simp [afterBackup]
+
+/-- an accepted error under an identity transformation: handled (the transformation is invoked), yet the
+outcome is the error it came with -/
+example :
+    let cfg : Cfg := { test .exception (some 2) 0 with exception := fun e => e }
+    accepts cfg ⟨1, 3⟩ = true ∧
+    resolve cfg ⟨4, 14⟩ 0 (.err ⟨1, 3⟩) (.ok ⟨9, 9, 9⟩) = ([.predicate ⟨1, 3⟩ true, .exception ⟨1, 3⟩], false, .inner ⟨1, 3⟩) := by
+  decide
+
+/-! ## "for that request": the request the layer works with is the one the caller handed in -/
+
+/-- In every run: the request given to the inner call of caller `c`, the request given to its backup
+call and the request handed to the `from_request_error` function are all the request `c` handed to the
+layer — `(c, tag)` of `c`'s `arrive` (`requestOf ops c`: the arrival is an input of the run, it emits no
+event). The layer never swaps, re-tags or mixes up requests, in any interleaving of any callers. -/
+theorem request_forwarded_unchanged (cfg : Cfg) (ops : List Op) (c k : Nat) (rq : Request)
+    (h : FEv.innerCall c k rq ∈ (run cfg ops).log ∨ FEv.backupCall c k rq ∈ (run cfg ops).log ∨
+         ∃ e, FEv.callback c (.fromReqErr rq e) ∈ (run cfg ops).log) :
+    rq.c = c ∧ requestOf ops c = some rq.tag := by
+  have hr := rinv_reachable cfg ops
+  rcases h with h | h | ⟨e, h⟩
+  · exact hr.log _ h rq rfl
+  · exact hr.log _ h rq rfl
+  · exact hr.log _ h rq rfl
+
+/-- The same in hypothesis form: if every `arrive c` of the operation list carries `tag`, the inner call of
+`c` is made with `(c, tag)`. -/
+theorem request_is_the_arrivals (cfg : Cfg) (ops : List Op) (c tag k : Nat) (rq : Request)
+    (hall : ∀ t plan, Op.arrive c t plan ∈ ops → t = tag) (h : FEv.innerCall c k rq ∈ (run cfg ops).log) :
+    rq = ⟨c, tag⟩ := by
+  obtain ⟨h1, h2⟩ := request_forwarded_unchanged cfg ops c k rq (Or.inl h)
+  have := requestOf_of_all hall h2
+  cases rq; simp only at h1 this; simp [h1, this]
+
+example :
+    let ops := [Op.arrive 1 11 [⟨0, .err 1⟩, ⟨0, .ok⟩], .arrive 2 12 [⟨0, .ok⟩], .arrive 1 99 [⟨0, .ok⟩], .poll 2, .poll 1]
+    requestOf ops 1 = some 11 ∧ FEv.backupCall 1 2 ⟨1, 11⟩ ∈ (run (test .service none 0) ops).log ∧
+    FEv.innerCall 2 0 ⟨2, 12⟩ ∈ (run (test .service none 0) ops).log := by
+  decide
+
+example : ∀ t plan, Op.arrive 2 t plan ∈
+    [Op.arrive 1 11 [⟨0, .err 1⟩, ⟨0, .ok⟩], .arrive 2 12 [⟨0, .ok⟩], .arrive 1 99 [⟨0, .ok⟩], .poll 2, .poll 1] → t = 12 := by
+  intro t plan h
+  simp at h
+  exact h.1
+
+/-- `success_untouched`, for that request: once the inner call of `c` has succeeded, the events about `c`
+are the inner call **with the request `c` handed in**, its completion, and the response carrying that
+request's payload — nothing else. -/
+theorem success_untouched_for_that_request (cfg : Cfg) (ops : List Op) (c k : Nat)
+    (h : FEv.innerDone c k .ok ∈ (run cfg ops).log) :
+    ∃ tag, requestOf ops c = some tag ∧ evsOf c (run cfg ops).log =
+      [.innerCall c k ⟨c, tag⟩, .innerDone c k .ok, .resp c (.ok ⟨k, c, tag⟩), .result c (.ok ⟨k, c, tag⟩)] := by
+  obtain ⟨rq, hev⟩ := success_untouched cfg ops c k h
+  have hc : FEv.innerCall c k rq ∈ (run cfg ops).log := (mem_evsOf.mp (by rw [hev]; simp)).1
+  obtain ⟨h1, h2⟩ := request_forwarded_unchanged cfg ops c k rq (Or.inl hc)
+  refine ⟨rq.tag, h2, ?_⟩
+  rw [hev]; cases rq; simp only at h1; subst h1; rfl
+
+/-! ## rejected errors and user functions, at run level -/
+
+/-- The mirror of `success_untouched` for an error the predicate **rejects**: in every run, once the inner
+call of `c` has failed with an error the predicate does not accept, the events about `c` are exactly: the
+inner call (with the request `c` handed in), its completion, the one predicate call (answer: no), the
+response and the result with **that very error** under the pass-through variant — no strategy function, no
+backup call, nothing afterwards. -/
+theorem rejected_untouched (cfg : Cfg) (ops : List Op) (c k kd : Nat)
+    (h : FEv.innerDone c k (.err kd) ∈ (run cfg ops).log) (hrej : accepts cfg ⟨kd, k⟩ = false) :
+    ∃ tag, requestOf ops c = some tag ∧ evsOf c (run cfg ops).log =
+      [.innerCall c k ⟨c, tag⟩, .innerDone c k (.err kd), .callback c (.predicate ⟨kd, k⟩ false),
+       .resp c (.inner ⟨kd, k⟩), .result c (.inner ⟨kd, k⟩)] := by
+  have hm : FEv.innerDone c k (.err kd) ∈ evsOf c (run cfg ops).log := mem_evsOf.mpr ⟨h, rfl⟩
+  have key : ∃ rq, evsOf c (run cfg ops).log =
+      [.innerCall c k rq, .innerDone c k (.err kd), .callback c (.predicate ⟨kd, k⟩ false),
+       .resp c (.inner ⟨kd, k⟩), .result c (.inner ⟨kd, k⟩)] := by
+    generalize hl : evsOf c (run cfg ops).log = l at hm
+    have ht : Trace cfg c l := hl ▸ trace_reachable cfg ops c
+    cases ht with
+    | none => simp at hm
+    | calling rq k' => simp at hm
+    | notReady => simp at hm
+    | readyFailed => simp at hm
+    | droppedInner rq k' => simp at hm
+    | panicked rq k' out hn hr =>
+        simp at hm
+        obtain ⟨hk, ho⟩ := hm
+        subst hk; subst ho
+        simp [svcResult] at hr
+    | finished rq n k' out ri cbs o hn hr ha =>
+        simp at hm
+        obtain ⟨hk, ho⟩ := hm
+        subst hk; subst ho
+        simp only [svcResult, Option.some.injEq] at hr
+        subst hr
+        rw [afterInner_rejected hrej] at ha
+        injection ha with h1 h2
+        subst h1; subst h2
+        exact ⟨rq, rfl⟩
+    | backup rq n k' out ri cbs tail hn hr ha htl =>
+        simp at hm
+        rcases hm with ⟨hk, ho⟩ | hm
+        · subst hk; subst ho
+          simp only [svcResult, Option.some.injEq] at hr
+          subst hr
+          rw [afterInner_rejected hrej] at ha
+          cases ha
+        · exact absurd hm (innerDone_not_mem_tail htl c k (.err kd))
+  obtain ⟨rq, hev⟩ := key
+  have hc : FEv.innerCall c k rq ∈ (run cfg ops).log := (mem_evsOf.mp (by rw [hev]; simp)).1
+  obtain ⟨h1, h2⟩ := request_forwarded_unchanged cfg ops c k rq (Or.inl hc)
+  refine ⟨rq.tag, h2, ?_⟩
+  rw [hev]; cases rq; simp only at h1; subst h1; rfl
+
+example :
+    let cfg := test .fromReqErr (some 2) 0
+    let ops := [Op.arrive 3 13 [⟨0, .err 2⟩], .poll 3]
+    FEv.innerDone 3 0 (.err 2) ∈ (run cfg ops).log ∧ accepts cfg ⟨2, 0⟩ = false := by
+  decide
+
+/-- In every run: **every** invocation of a user function for request `c` — not only the backup call — is
+justified: `c`'s inner call (made with the request `c` handed in) completed with an error, and the function
+is the predicate called on that error, or — the predicate (if any) **having accepted that error** — the one
+function of the configured strategy, called with exactly that request and that error. -/
+theorem callback_justified (cfg : Cfg) (ops : List Op) (c : Nat) (cb : Callback)
+    (h : FEv.callback c cb ∈ (run cfg ops).log) :
+    ∃ tag n k kd, requestOf ops c = some tag ∧ FEv.innerCall c k ⟨c, tag⟩ ∈ (run cfg ops).log ∧
+      FEv.innerDone c k (.err kd) ∈ (run cfg ops).log ∧
+      ((cb = .predicate ⟨kd, k⟩ (accepts cfg ⟨kd, k⟩) ∧ cfg.pred ≠ none) ∨
+       (accepts cfg ⟨kd, k⟩ = true ∧ strategyCall cfg ⟨c, tag⟩ n ⟨kd, k⟩ = some cb)) := by
+  have hm : FEv.callback c cb ∈ evsOf c (run cfg ops).log := mem_evsOf.mpr ⟨h, rfl⟩
+  obtain ⟨rq, n, k, out, ri, hcall, hdone, hr, hcb⟩ := callback_mem_trace (trace_reachable cfg ops c) hm
+  obtain ⟨e, hri, hd⟩ := mem_afterInner_cbs hcb
+  subst hri
+  obtain ⟨ho, hv⟩ := svcResult_err hr
+  subst ho
+  have he : (⟨e.kind, k⟩ : IErr) = e := by cases e; simp only at hv; simp [hv]
+  obtain ⟨h1, h2⟩ := request_forwarded_unchanged cfg ops c k rq (Or.inl (mem_evsOf.mp hcall).1)
+  have hrq : rq = ⟨c, rq.tag⟩ := by cases rq; simp only at h1; subst h1; rfl
+  refine ⟨rq.tag, n, k, e.kind, h2, hrq ▸ (mem_evsOf.mp hcall).1, (mem_evsOf.mp hdone).1, ?_⟩
+  rw [he, ← hrq]
+  exact hd
+
+/-- In particular: a **strategy** function (value function, `from_error`, `from_request_error`,
+transformation) runs for `c` only if the predicate accepted the error `c`'s inner call failed with. -/
+theorem strategy_callback_only_if_accepted (cfg : Cfg) (ops : List Op) (c : Nat) (cb : Callback)
+    (h : FEv.callback c cb ∈ (run cfg ops).log) (hnp : cb.isPredicate = false) :
+    ∃ k kd, FEv.innerDone c k (.err kd) ∈ (run cfg ops).log ∧ accepts cfg ⟨kd, k⟩ = true := by
+  obtain ⟨tag, n, k, kd, _, _, hdone, hd⟩ := callback_justified cfg ops c cb h
+  rcases hd with ⟨hp, _⟩ | ⟨hacc, _⟩
+  · subst hp; simp [Callback.isPredicate] at hnp
+  · exact ⟨k, kd, hdone, hacc⟩
+
+example :
+    let cfg := test .fromReqErr (some 2) 0
+    let ops := [Op.arrive 3 13 [⟨0, .err 1⟩], .poll 3]
+    FEv.callback 3 (.fromReqErr ⟨3, 13⟩ ⟨1, 0⟩) ∈ (run cfg ops).log ∧
+    (Callback.fromReqErr ⟨3, 13⟩ ⟨1, 0⟩).isPredicate = false := by
+  decide
+
+/-! ## the value-function counter and the place of a completion block, read off the log -/
+
+/-- The ghost counter of the model is a function of the log: the number of `value_fn` callbacks logged. -/
+theorem fnCalls_is_count (cfg : Cfg) (ops : List Op) :
+    (run cfg ops).fnCalls = (run cfg ops).log.countP isValueFn :=
+  (acct_reachable cfg ops).count
+
+/-- In every run: the invocation number the value function is called with is its position among the
+`value_fn` callbacks of the whole log — wherever `callback c (valueFn n)` stands, exactly `n` invocations of
+the value function (for any request) stand before it. -/
+theorem value_fn_counter_exact (cfg : Cfg) (ops : List Op) (pre post : List FEv) (c n : Nat)
+    (h : (run cfg ops).log = pre ++ .callback c (.valueFn n) :: post) : n = pre.countP isValueFn :=
+  value_fn_counter_of_grown (acct_reachable cfg ops).grown pre post c n h
+
+/-- In every run, wherever `innerDone c k out` stands in the log (of all requests): before it the only
+event about `c` is its inner call, and the WHOLE completion block — the predicate / strategy callbacks and
+the response, computed with the number of `value_fn` callbacks before this point — follows it
+immediately: one poll, no event of any other request in between. -/
+theorem completion_block_in_one_piece (cfg : Cfg) (ops : List Op) (pre post : List FEv) (c k : Nat) (out : Out)
+    (h : (run cfg ops).log = pre ++ .innerDone c k out :: post) :
+    ∃ rq, evsOf c pre = [.innerCall c k rq] ∧
+      (completionInner cfg c rq (pre.countP isValueFn) k out).1 <+: .innerDone c k out :: post :=
+  blocks_of_grown (acct_reachable cfg ops).grown pre post c k out h
+
+/-- The request a `callback` event belongs to (a ghost of the model: the implementation's log line does
+not name it) can be read off the log: wherever a callback for `c` stands, the closest event before it that
+is not a callback is `innerDone` **of `c`**, and all callbacks in between are `c`'s. -/
+theorem callback_owner_in_log (cfg : Cfg) (ops : List Op) (pre post : List FEv) (c : Nat) (cb : Callback)
+    (h : (run cfg ops).log = pre ++ .callback c cb :: post) :
+    ∃ pre' k out, ∃ cbs1 : List Callback, pre = pre' ++ .innerDone c k out :: cbs1.map (.callback c) :=
+  callback_owner_of_grown (acct_reachable cfg ops).grown pre post c cb h
+
+example :
+    let cfg := test .valueFn none 700
+    let ops := [Op.arrive 1 11 [⟨0, .err 1⟩], .arrive 2 12 [⟨0, .err 1⟩], .poll 2, .poll 1]
+    (run cfg ops).log = [.innerCall 2 0 ⟨2, 12⟩, .innerDone 2 0 (.err 1)] ++ .callback 2 (.valueFn 0) ::
+      [.resp 2 (.ok ⟨700, 0, 1⟩), .result 2 (.ok ⟨700, 0, 1⟩), .innerCall 1 1 ⟨1, 11⟩, .innerDone 1 1 (.err 1),
+       .callback 1 (.valueFn 1), .resp 1 (.ok ⟨701, 0, 1⟩), .result 1 (.ok ⟨701, 0, 1⟩)] ∧
+    (run cfg ops).log = [.innerCall 2 0 ⟨2, 12⟩, .innerDone 2 0 (.err 1), .callback 2 (.valueFn 0),
+       .resp 2 (.ok ⟨700, 0, 1⟩), .result 2 (.ok ⟨700, 0, 1⟩), .innerCall 1 1 ⟨1, 11⟩] ++ .innerDone 1 1 (.err 1) ::
+      [.callback 1 (.valueFn 1), .resp 1 (.ok ⟨701, 0, 1⟩), .result 1 (.ok ⟨701, 0, 1⟩)] ∧
+    (run cfg ops).fnCalls = 2 := by
+  decide
+
+/-- `result_exact` with nothing left open: in every run a result delivered for `c` is the readiness
+failure of the wrapped service, or the log splits at `c`'s `innerDone` — before it `c` has only its inner
+call, made with the request `(c, tag)` that `c` handed in — and the result is what the decision function
+specifies for **that request**, **that inner result** and the value-function counter = **the number of
+`value_fn` callbacks logged before that `innerDone`**; if the decision was to call the backup: for the
+backup's result, the backup call (with the same request) and its completion standing after the `innerDone`,
+or for the backup's readiness failure, no backup call having been made. -/
+theorem result_exact_counted (cfg : Cfg) (ops : List Op) (c : Nat) (o : Outcome)
+    (h : FEv.result c o ∈ (run cfg ops).log) :
+    (o = .inner readyErr ∧ evsOf c (run cfg ops).log = [.resp c (.inner readyErr), .result c (.inner readyErr)]) ∨
+    ∃ tag k out ri pre post, requestOf ops c = some tag ∧
+      (run cfg ops).log = pre ++ .innerDone c k out :: post ∧ evsOf c pre = [.innerCall c k ⟨c, tag⟩] ∧
+      svcResult ⟨c, tag⟩ k out = some ri ∧
+      ((∃ cbs, afterInner cfg ⟨c, tag⟩ (pre.countP isValueFn) ri = .finish cbs o) ∨
+       (∃ cbs k2 out2 rb, afterInner cfg ⟨c, tag⟩ (pre.countP isValueFn) ri = .backup cbs ∧
+          FEv.backupCall c k2 ⟨c, tag⟩ ∈ post ∧ FEv.backupDone c k2 out2 ∈ post ∧
+          svcResult ⟨c, tag⟩ k2 out2 = some rb ∧ o = afterBackup rb) ∨
+       (∃ cbs, afterInner cfg ⟨c, tag⟩ (pre.countP isValueFn) ri = .backup cbs ∧ o = afterBackup (.err readyErr) ∧
+          ∀ k2 rq', FEv.backupCall c k2 rq' ∉ (run cfg ops).log)) := by
+  have hm : FEv.result c o ∈ evsOf c (run cfg ops).log := mem_evsOf.mpr ⟨h, rfl⟩
+  rcases result_mem_trace (trace_reachable cfg ops c) hm with hl | ⟨rq, n, k, out, ri, tail, hn, hr, hl, hd⟩
+  · exact Or.inl hl
+  · right
+    obtain ⟨pre, post', hlog, hpre, htail, hB⟩ := block_counter_pinned cfg ops hl
+    obtain ⟨rest, hhead, _⟩ := completionInner_head cfg c rq n k out
+    have hcall : FEv.innerCall c k rq ∈ (run cfg ops).log := (mem_evsOf.mp (by rw [hl]; simp [traceFin])).1
+    obtain ⟨h1, h2⟩ := request_forwarded_unchanged cfg ops c k rq (Or.inl hcall)
+    have hrq : rq = ⟨c, rq.tag⟩ := by cases rq; simp only at h1; subst h1; rfl
+    have hn' := afterInner_eq_of_block_eq hr hB
+    have hpost : ∀ e, e ∈ tail → e ∈ rest ++ post' := by
+      intro e he
+      rw [htail] at he
+      exact List.mem_append_right _ (mem_evsOf.mp he).1
+    refine ⟨rq.tag, k, out, ri, pre, rest ++ post', h2, by rw [hlog, hhead]; simp, hrq ▸ hpre, hrq ▸ hr, ?_⟩
+    rw [← hrq, ← hn']
+    rcases hd with ⟨cbs, ha, _⟩ | ⟨cbs, k2, out2, rb, ha, _, hr2, ho, ht⟩ | ⟨cbs, ha, ho, ht⟩
+    · exact Or.inl ⟨cbs, ha⟩
+    · exact Or.inr (Or.inl ⟨cbs, k2, out2, rb, ha, hpost _ (by rw [ht]; simp), hpost _ (by rw [ht]; simp), hr2, ho⟩)
+    · refine Or.inr (Or.inr ⟨cbs, ha, ho, ?_⟩)
+      intro k2 rq' hb
+      have : FEv.backupCall c k2 rq' ∈ evsOf c (run cfg ops).log := mem_evsOf.mpr ⟨hb, rfl⟩
+      rw [hl, ht] at this
+      simp only [traceFin, List.cons_append, List.mem_cons, reduceCtorEq, false_or, List.mem_append, List.mem_nil_iff,
+        or_false] at this
+      rcases completionInner_cases cfg c rq n k out with ⟨_, hc⟩ | ⟨ri', cbs', o', _, _, hc⟩ | ⟨ri', cbs', _, _, hc⟩ <;>
+        rw [hc] at this <;> simp at this
+
+/-- In every run the inner call of a request completes at most once, and at most one result is ever
+delivered for a request (one `result` event about it in the whole log). -/
+theorem at_most_one_completion_and_result (cfg : Cfg) (ops : List Op) (c : Nat) :
+    (∀ k k' o o', FEv.innerDone c k o ∈ (run cfg ops).log → FEv.innerDone c k' o' ∈ (run cfg ops).log → k = k' ∧ o = o') ∧
+    (∀ o o', FEv.result c o ∈ (run cfg ops).log → FEv.result c o' ∈ (run cfg ops).log → o = o') ∧
+    (run cfg ops).log.countP (isResultOf c) ≤ 1 := by
+  have ht := trace_reachable cfg ops c
+  refine ⟨?_, ?_, ?_⟩
+  · intro k k' o o' h1 h2
+    exact trace_innerDone_unique ht (mem_evsOf.mpr ⟨h1, rfl⟩) (mem_evsOf.mpr ⟨h2, rfl⟩)
+  · intro o o' h1 h2
+    exact trace_result_unique ht (mem_evsOf.mpr ⟨h1, rfl⟩) (mem_evsOf.mpr ⟨h2, rfl⟩)
+  · rw [countP_isResultOf]; exact trace_one_result ht
+
+/-- The property's oracle, as a theorem about every run: the result delivered for `c` is the value of the
+pure reference function `resolve` of (configuration, the request `c` handed in, the number of `value_fn`
+callbacks logged before `c`'s inner call completed, the inner result, the backup result) — and when that
+function says the backup is called, the backup call (with that request) and its completion stand in the log
+after the `innerDone`, or the backup service failed readiness and no backup call was made. -/
+theorem result_is_reference_function (cfg : Cfg) (ops : List Op) (c : Nat) (o : Outcome)
+    (h : FEv.result c o ∈ (run cfg ops).log) :
+    (o = .inner readyErr ∧ evsOf c (run cfg ops).log = [.resp c (.inner readyErr), .result c (.inner readyErr)]) ∨
+    ∃ tag k out ri rb pre post, requestOf ops c = some tag ∧
+      (run cfg ops).log = pre ++ .innerDone c k out :: post ∧ evsOf c pre = [.innerCall c k ⟨c, tag⟩] ∧
+      svcResult ⟨c, tag⟩ k out = some ri ∧
+      o = (resolve cfg ⟨c, tag⟩ (pre.countP isValueFn) ri rb).2.2 ∧
+      ((resolve cfg ⟨c, tag⟩ (pre.countP isValueFn) ri rb).2.1 = true →
+        (∃ k2 out2, FEv.backupCall c k2 ⟨c, tag⟩ ∈ post ∧ FEv.backupDone c k2 out2 ∈ post ∧
+           svcResult ⟨c, tag⟩ k2 out2 = some rb) ∨
+        (rb = .err readyErr ∧ ∀ k2 rq', FEv.backupCall c k2 rq' ∉ (run cfg ops).log)) := by
+  rcases result_exact_counted cfg ops c o h with hl | ⟨tag, k, out, ri, pre, post, hreq, hlog, hpre, hr, hd⟩
+  · exact Or.inl hl
+  · right
+    rcases hd with ⟨cbs, ha⟩ | ⟨cbs, k2, out2, rb, ha, hb1, hb2, hr2, ho⟩ | ⟨cbs, ha, ho, hno⟩
+    · exact ⟨tag, k, out, ri, .ok ⟨0, 0, 0⟩, pre, post, hreq, hlog, hpre, hr, by simp [resolve, ha], by simp [resolve, ha]⟩
+    · exact ⟨tag, k, out, ri, rb, pre, post, hreq, hlog, hpre, hr, by simp [resolve, ha, ho],
+        fun _ => Or.inl ⟨k2, out2, hb1, hb2, hr2⟩⟩
+    · exact ⟨tag, k, out, ri, .err readyErr, pre, post, hreq, hlog, hpre, hr, by simp [resolve, ha, ho],
+        fun _ => Or.inr ⟨rfl, hno⟩⟩
+
+/-! ## the caller's log: every delivered result through the caller's post-processing -/
+
+/-- What the line-protocol machine prints is `callerLog` of the log (of the stack, if there is one). In
+every run, for every assignment of post-processing steps to callers: a `result` line of the caller's log is
+`postRun` of a result the layer delivered for that caller — the same variant, the payload converted once per
+`map` step, a success untouched — and every delivered result appears so; … -/
+theorem caller_result_is_post_run (cfg : Cfg) (ops : List Op) (posts : List (Nat × List PostStep)) (c : Nat) (o' : Outcome) :
+    CEv.ev (.low (.result c o')) ∈ callerLog posts ((run cfg ops).log.map .low) ↔
+      ∃ o, FEv.result c o ∈ (run cfg ops).log ∧ o' = (postRun (stepsOf posts c) o).2 ∧
+        o' = o.mapErr (iter appErr (mapCount (stepsOf posts c))) ∧ o'.isInner = o.isInner ∧ o'.isFailed = o.isFailed := by
+  rw [mem_callerLog_result]
+  constructor
+  · rintro ⟨o, ho, rfl⟩
+    simp only [List.mem_map, SEv.low.injEq, exists_eq_right] at ho
+    exact ⟨o, ho, rfl, (post_exact _ o).1, (post_exact _ o).2.1, (post_exact _ o).2.2.1⟩
+  · rintro ⟨o, ho, rfl, _⟩
+    exact ⟨o, by simpa using ho, rfl⟩
+
+/-- … a `view` line is one of the looks `postRun` takes at a result delivered for that caller: it shows the
+variant the layer produced; … -/
+theorem caller_view_is_post_run (cfg : Cfg) (ops : List Op) (posts : List (Nat × List PostStep)) (c : Nat) (v : View)
+    (h : CEv.view c v ∈ callerLog posts ((run cfg ops).log.map .low)) :
+    ∃ o, FEv.resp c o ∈ (run cfg ops).log ∧ v ∈ (postRun (stepsOf posts c) o).1 ∧
+      v.isInner = o.isInner ∧ v.isFailed = o.isFailed ∧ v.ref = v.into := by
+  obtain ⟨o, ho, hv⟩ := mem_callerLog_view.mp h
+  simp only [List.mem_map, SEv.low.injEq, exists_eq_right] at ho
+  obtain ⟨h1, h2, h3, _⟩ := post_views_exact _ o v hv
+  exact ⟨o, ho, hv, h1, h2, h3⟩
+
+/-- … and the same over a stack: the caller's `result` line is `postRun` of the upper layer's result. -/
+theorem caller_result_is_post_run_stack (l u : Cfg) (ops : List Op) (posts : List (Nat × List PostStep)) (c : Nat) (o' : Outcome) :
+    CEv.ev (.low (.result c o')) ∈ callerLog posts (stackLog u (run l ops).log) ↔
+      ∃ o, SEv.low (.result c o) ∈ stackLog u (run l ops).log ∧ o' = (postRun (stepsOf posts c) o).2 :=
+  mem_callerLog_result
+
+example :
+    callerLog [(1, [.map, .view])] ((run (test .service none 0) [Op.arrive 1 11 [⟨0, .err 1⟩, ⟨0, .err 3⟩], .poll 1]).log.map .low)
+      = [.ev (.low (.innerCall 1 0 ⟨1, 11⟩)), .ev (.low (.innerDone 1 0 (.err 1))), .ev (.low (.backupCall 1 1 ⟨1, 11⟩)),
+         .ev (.low (.backupDone 1 1 (.err 3))), .view 1 ⟨false, true, ⟨103, 1⟩, ⟨103, 1⟩⟩,
+         .ev (.low (.resp 1 (.failed ⟨103, 1⟩))), .ev (.low (.result 1 (.failed ⟨103, 1⟩)))] := by
+  decide
+
+/-- In every run of the lower instance, under every upper configuration: the invocation number the UPPER
+layer's value function is called with is its position among the upper `value_fn` callbacks of the stack's
+log (the counter of `stack_result_exact`, read off the log). -/
+theorem stack_value_fn_counter_exact (l u : Cfg) (ops : List Op) (pre post : List SEv) (c m : Nat)
+    (h : stackLog u (run l ops).log = pre ++ .up c (.valueFn m) :: post) : m = pre.countP isUpValueFn := by
+  have := liftLog_valueFn_counter u (run l ops).log 0 [] pre post c m h
+  simpa using this
+
+example :
+    stackLog (test .valueFn none 50) (run (test .exception none 0)
+        [.arrive 1 11 [⟨0, .err 1⟩], .arrive 2 12 [⟨0, .err 2⟩], .poll 2, .poll 1]).log
+      = [.low (.innerCall 2 0 ⟨2, 12⟩), .low (.innerDone 2 0 (.err 2)), .low (.callback 2 (.exception ⟨2, 0⟩)),
+         .up 2 (.valueFn 0), .low (.resp 2 (.ok ⟨50, 0, 1⟩)), .low (.result 2 (.ok ⟨50, 0, 1⟩)),
+         .low (.innerCall 1 1 ⟨1, 11⟩), .low (.innerDone 1 1 (.err 1)), .low (.callback 1 (.exception ⟨1, 1⟩))] ++
+        .up 1 (.valueFn 1) :: [.low (.resp 1 (.ok ⟨51, 0, 1⟩)), .low (.result 1 (.ok ⟨51, 0, 1⟩))] := by
+  decide
+
 /-! ## non-vacuity -/
 
 /-- The grid is inhabited in every corner: with predicate "kind 1 only" the backup strategy
 handles `err1` (backup fails with kind 3 ⇒ `FallbackFailed` of the backup's error) and returns
 `err2` unchanged, and a success is untouched. -/
 example :
-    let cfg : Cfg := { strat := .service, handle := some 2, val := 700 }
+    let cfg : Cfg := test .service (some 2) 700
     resolve cfg ⟨4, 14⟩ 0 (.err ⟨1, 3⟩) (.err ⟨3, 4⟩) = ([.predicate ⟨1, 3⟩ true], true, .failed ⟨3, 4⟩) ∧
     resolve cfg ⟨3, 13⟩ 0 (.err ⟨2, 2⟩) (.ok ⟨9, 9, 9⟩) = ([.predicate ⟨2, 2⟩ false], false, .inner ⟨2, 2⟩) ∧
     resolve cfg ⟨1, 11⟩ 0 (.ok ⟨0, 1, 11⟩) (.ok ⟨9, 9, 9⟩) = ([], false, .ok ⟨0, 1, 11⟩) := by
+  decide
+
+/-- The theorems are about arbitrary user functions; a configuration that is NOT the harness's: a predicate
+on the payload (even `v` only), a value function with an irregular sequence of responses, `from_error` /
+`from_request_error` / transformation functions of their own. Accepted errors (`v` even) get the strategy's
+function applied to exactly this request and error, a rejected one (`v` odd) comes back unchanged. -/
+example :
+    let cfg (st : Strategy) : Cfg :=
+      { strat := st, pred := some (fun e => e.v % 2 == 0), value := ⟨1, 2, 3⟩,
+        valueFn := fun n => ⟨n * n, 7, 7⟩, fromError := fun e => ⟨e.kind * e.v, 5, 5⟩,
+        fromReqErr := fun rq e => ⟨rq.tag + e.v, rq.c, e.kind⟩, exception := fun e => ⟨e.v, e.kind⟩ }
+    resolve (cfg .valueFn) ⟨4, 14⟩ 3 (.err ⟨1, 6⟩) (.ok ⟨9, 9, 9⟩) = ([.predicate ⟨1, 6⟩ true, .valueFn 3], false, .ok ⟨9, 7, 7⟩) ∧
+    resolve (cfg .fromError) ⟨4, 14⟩ 3 (.err ⟨2, 6⟩) (.ok ⟨9, 9, 9⟩) = ([.predicate ⟨2, 6⟩ true, .fromError ⟨2, 6⟩], false, .ok ⟨12, 5, 5⟩) ∧
+    resolve (cfg .fromReqErr) ⟨4, 14⟩ 3 (.err ⟨2, 6⟩) (.ok ⟨9, 9, 9⟩)
+      = ([.predicate ⟨2, 6⟩ true, .fromReqErr ⟨4, 14⟩ ⟨2, 6⟩], false, .ok ⟨20, 4, 2⟩) ∧
+    resolve (cfg .exception) ⟨4, 14⟩ 3 (.err ⟨2, 6⟩) (.ok ⟨9, 9, 9⟩) = ([.predicate ⟨2, 6⟩ true, .exception ⟨2, 6⟩], false, .inner ⟨6, 2⟩) ∧
+    resolve (cfg .fromReqErr) ⟨4, 14⟩ 3 (.err ⟨2, 7⟩) (.ok ⟨9, 9, 9⟩) = ([.predicate ⟨2, 7⟩ false], false, .inner ⟨2, 7⟩) ∧
+    FEv.result 3 (.ok ⟨1, 7, 7⟩) ∈ (run (cfg .valueFn)
+      [.arrive 1 11 [⟨0, .err 5⟩], .arrive 2 12 [⟨0, .ok⟩], .arrive 3 13 [⟨0, .err 5⟩], .poll 1, .poll 2, .poll 3]).log := by
+  decide
+
+/-- The per-strategy theorems of the test instance: value function, `from_error`, `from_request_error`. -/
+example :
+    resolve (test .valueFn (some 2) 700) ⟨4, 14⟩ 5 (.err ⟨1, 3⟩) (.ok ⟨9, 9, 9⟩) = ([.predicate ⟨1, 3⟩ true, .valueFn 5], false, .ok ⟨705, 0, 1⟩) ∧
+    resolve (test .fromError none 700) ⟨4, 14⟩ 5 (.err ⟨1, 3⟩) (.ok ⟨9, 9, 9⟩) = ([.fromError ⟨1, 3⟩], false, .ok ⟨3, 0, 1⟩) ∧
+    resolve (test .fromReqErr (some 2) 700) ⟨4, 14⟩ 5 (.err ⟨1, 3⟩) (.ok ⟨9, 9, 9⟩)
+      = ([.predicate ⟨1, 3⟩ true, .fromReqErr ⟨4, 14⟩ ⟨1, 3⟩], false, .ok ⟨3, 4, 1401⟩) ∧
+    accepts (test .valueFn (some 2) 700) ⟨1, 3⟩ = true ∧ accepts (test .fromError none 700) ⟨1, 3⟩ = true := by
   decide
 
 /-- A concrete run in which all branches occur: request 1 succeeds, request 2's error is
 replaced by the backup's response after 5+3 ms, request 3's error is rejected by the predicate,
 request 4 is cancelled while the backup call is in flight. -/
 example :
-    let cfg : Cfg := { strat := .service, handle := some 2, val := 700 }
+    let cfg : Cfg := test .service (some 2) 700
     let ops := [Op.arrive 1 11 [⟨0, .ok⟩], .arrive 2 12 [⟨5, .err 1⟩, ⟨3, .ok⟩], .arrive 3 13 [⟨0, .err 2⟩],
                 .arrive 4 14 [⟨0, .err 1⟩, ⟨9, .ok⟩], .poll 1, .poll 2, .poll 3, .poll 4, .adv 5, .poll 2, .adv 3,
                 .poll 2, .drop 4]
     evsOf 2 (run cfg ops).log =
       [.innerCall 2 1 ⟨2, 12⟩, .innerDone 2 1 (.err 1), .callback 2 (.predicate ⟨1, 1⟩ true),
        .backupCall 2 5 ⟨2, 12⟩, .backupDone 2 5 .ok, .resp 2 (.ok ⟨5, 2, 12⟩), .result 2 (.ok ⟨5, 2, 12⟩)] ∧
+    FEv.innerDone 1 0 .ok ∈ (run cfg ops).log ∧ requestOf ops 1 = some 11 ∧
     FEv.result 1 (.ok ⟨0, 1, 11⟩) ∈ (run cfg ops).log ∧
     FEv.result 3 (.inner ⟨2, 2⟩) ∈ (run cfg ops).log ∧
     FEv.backupDrop 4 4 ∈ (run cfg ops).log := by
@@ -724,7 +1157,7 @@ example :
 request 2 and the backup call of request 3 are pending, after request 4 completed: each request
 gets exactly what the strategy specifies, … -/
 example :
-    let cfg : Cfg := { strat := .service, handle := some 2, val := 700 }
+    let cfg : Cfg := test .service (some 2) 700
     let ops := [Op.arrive 1 11 [⟨0, .err 1⟩, ⟨0, .ok⟩], .arrive 2 12 [⟨5, .err 1⟩, ⟨0, .err 3⟩],
                 .arrive 3 13 [⟨0, .err 1⟩, ⟨5, .ok⟩], .arrive 4 14 [⟨0, .err 2⟩], .poll 2, .poll 3, .poll 4,
                 .dropsvc, .poll 1, .adv 5, .poll 2, .poll 3]
@@ -736,7 +1169,7 @@ example :
 
 /-- … and a request attempted after the drop never exists (it does when the handles are kept). -/
 example :
-    let cfg : Cfg := { strat := .value, handle := none, val := 700 }
+    let cfg : Cfg := test .value none 700
     evsOf 2 (run cfg [.arrive 1 11 [⟨0, .err 1⟩], .dropsvc, .arrive 2 12 [⟨0, .ok⟩], .poll 1, .poll 2]).log = [] ∧
     FEv.result 1 (.ok ⟨700, 0, 0⟩) ∈ (run cfg [.arrive 1 11 [⟨0, .err 1⟩], .dropsvc, .arrive 2 12 [⟨0, .ok⟩], .poll 1, .poll 2]).log ∧
     FEv.result 2 (.ok ⟨1, 2, 12⟩) ∈ (run cfg [.arrive 1 11 [⟨0, .err 1⟩], .arrive 2 12 [⟨0, .ok⟩], .poll 1, .poll 2]).log := by
@@ -747,7 +1180,7 @@ readiness error of the wrapped service — returned unchanged, nothing called; r
 pending and gives up; request 3 is called and its **call** fails with the same kind 9 — that one is
 handled (predicate, transformation). -/
 example :
-    let cfg : Cfg := { strat := .exception, handle := some 512, val := 0, ready := [.error, .pending] }
+    let cfg : Cfg := test .exception (some 512) 0 (ready := [.error, .pending])
     let ops := [Op.arrive 1 11 [⟨0, .ok⟩], .arrive 2 12 [⟨0, .ok⟩], .arrive 3 13 [⟨0, .err 9⟩], .poll 1, .poll 2, .poll 3]
     (run cfg ops).log =
       [.resp 1 (.inner ⟨9, 0⟩), .result 1 (.inner ⟨9, 0⟩), .notReady 2,
@@ -759,7 +1192,7 @@ example :
 then fails readiness — `FallbackFailed` of that error, no backup call; request 2's backup is called.
 Arrivals do not touch the backup's script. -/
 example :
-    let cfg : Cfg := { strat := .service, handle := none, val := 0, bready := [.pending, .error] }
+    let cfg : Cfg := test .service none 0 (bready := [.pending, .error])
     let ops := [Op.arrive 1 11 [⟨0, .err 1⟩, ⟨0, .ok⟩], .arrive 2 12 [⟨0, .err 1⟩, ⟨0, .ok⟩], .poll 1, .poll 2]
     (run cfg ops).log =
       [.innerCall 1 0 ⟨1, 11⟩, .innerDone 1 0 (.err 1), .resp 1 (.failed ⟨9, 0⟩), .result 1 (.failed ⟨9, 0⟩),
@@ -781,8 +1214,8 @@ upper layer (error transformation, predicate "only `FallbackFailed`"). Request 1
 `Inner` of its result (kind 17); request 2: inner `err2` is rejected below, `Inner(2:2)` (kind 4) is
 rejected above: passed on; request 3 succeeds: nothing is called. -/
 example :
-    let l : Cfg := { strat := .service, handle := some 2, val := 700 }
-    let u : Cfg := { strat := .exception, handle := some 0xAAAAAAAAAAAAAAAA, val := 0 }
+    let l : Cfg := test .service (some 2) 700
+    let u : Cfg := test .exception (some 0xAAAAAAAAAAAAAAAA) 0
     let ops := [Op.arrive 1 11 [⟨0, .err 1⟩, ⟨0, .err 3⟩], .arrive 2 12 [⟨0, .err 2⟩], .arrive 3 13 [⟨0, .ok⟩],
                 .poll 1, .poll 2, .poll 3]
     stackLog u (run l ops).log =
